@@ -18,4 +18,11 @@ let () = iter_lines (fun line ->
         (String.concat "" (List.map (fun (a, b) -> Printf.sprintf " %s-%s" (z_to_string a) (z_to_string b)) rs))
   | "D" :: lm :: ims :: _ ->
       print_endline (if if_modified_since (z_of_int 123) (bytes_of_hex ims) (z_of_int (int_of_string lm)) then "1" else "0")
+  | "M" :: wk :: et :: v :: _ ->
+      print_endline (if etag_matches (bytes_of_hex et) (bytes_of_hex v) (wk = "1") then "1" else "0")
+  | "E" :: fl :: inm :: ims :: et :: lm :: lmt :: _ ->
+      (* http_header_request_set / http_header_response_set with an empty value leave the field unset (glue, as in the request parser) *)
+      let o t = match opt_of_tok t with Some [] -> None | x -> x in
+      (match cachable (z_of_int 123) (fl.[0] = '1' || fl.[0] = '2') (fl.[1] = '1') (o inm) (o ims) (o et) (o lm) (z_of_int (int_of_string lmt)) with
+       | C304 -> print_endline "304" | C412 -> print_endline "412" | CPass -> print_endline "0")
   | _ -> print_endline "?")
